@@ -140,9 +140,13 @@ class StubSim(mosaik_api_v3.Simulator):
         n0 = getattr(self, "_n_created", 0)
         self._n_created = n0 + num
         if (self.spec or {}).get("child"):
-            # every entity has one child of another model
+            # every entity has one child of another model ("Sub") - and, for every other simulator, an
+            # elder sibling of that child that has the parent's own model (a list of children of mixed
+            # models: each child is to be judged by its own)
+            mixed = h64((self.spec.get("beh") or {}).get("bseed", 0), "mixed_children") % 2 == 0
             return [{"eid": f"e{n0 + i}", "type": model,
-                     "children": [{"eid": f"e{n0 + i}c", "type": "Sub", "rel": []}]} for i in range(num)]
+                     "children": ([{"eid": f"e{n0 + i}m", "type": model, "rel": []}] if mixed else []) +
+                     [{"eid": f"e{n0 + i}c", "type": "Sub", "rel": []}]} for i in range(num)]
         return [{"eid": f"e{n0 + i}", "type": model} for i in range(num)]
 
     def setup_done(self):
